@@ -2,6 +2,7 @@
 SPECIFICATION Spec
 CONSTANTS
     Paths = {"p", "q"}
+    StorePaths = {}
     Contents = {"c1", "c2", "c3"}
     Size <- SizeDef
     Algs = {"md5"}
